@@ -1668,7 +1668,8 @@ RULE = ("case = (model shape, stack of name_mapping providers, strict_coercion, 
 if __name__ == "__main__":
     raise SystemExit(runner.main(
         PROP, explore=explore, check_case=check_case,
-        strategy=st.one_of(st_case(), st_case(probe="skeleton"), st_case(probe="omit")), rule=RULE,
+        strategy=st.one_of(st_case(exclude=exclusions_active()), st_case(probe="skeleton"), st_case(probe="omit")),
+        rule=RULE,
         assumptions=[
             "field types are strict int / str / bool / Dict[str, Any] and one nested frozen dataclass: the subject "
             "is the layout, not the leaf loaders (C02)",
